@@ -941,7 +941,9 @@ func c08SrcAction(c *Ctx) {
 		unq := c08Try(func() string { return string(syntax.VerifUnquoteBytes([]byte(lit))) })
 		src := []byte("stage S(\n    in  int x,\n    src comp " + lit + ",\n)\n")
 		res := c08Guard(3*time.Second, func() (string, error) {
-			_, _, ast, err := syntax.ParseSourceBytes(src, filepath.Join(c.Scratch, "src.mro"), nil, false)
+			// UncheckedParse: the grammar action alone, no semantic checks
+			var ps syntax.Parser
+			ast, err := ps.UncheckedParse(src, filepath.Join(c.Scratch, "src.mro"))
 			if err != nil {
 				return "", err
 			}
